@@ -469,6 +469,8 @@ class FnRun:
         return local, proj
 
     def default(self, local, proj):
+        if proj and proj[-1] == "len":
+            return Contracts.LEN          # pseudo place: the length of the slice a reference points to
         ty, stack = self.an.place_type(self.body, local, proj)
         if not is_int(ty):
             return None
@@ -681,6 +683,17 @@ class FnRun:
                     ct, cf = st[("cond", sk)]
                     st[("cond", (ndl, tuple(ndp)))] = (cf, ct)
                 return
+            if rv["op"] == "PtrMetadata" and is_int(dty):
+                # the length of the slice behind a reference: a pseudo place (target, .., "len") that `is_empty()` and
+                # comparisons of this length refine
+                pl_ = rv["a"].get("copy") or rv["a"].get("move")
+                if pl_ is not None and not pl_["p"]:
+                    kl, kp = self.norm(st, pl_["l"], ("*", "len"))
+                    v = st.get((kl, tuple(kp))) or Contracts.LEN
+                    self.write(st, dl, dp, v)
+                    ndl, ndp = self.norm(st, dl, dp)
+                    st[("alias", (ndl, tuple(ndp)))] = (kl, tuple(kp))
+                    return
             self.kill_write_default(st, dl, dp)
             return
         if k == "cast":
@@ -856,6 +869,11 @@ class FnRun:
                             extra[pre_ + kk[1][len(sp_):]] = r2_
         if "indirect" not in f and f.get("name") == "map" and "core::array::" in ((f.get("resolved") or f).get("path", "") or "") and len(t["args"]) == 2:
             extra.update(self.array_map_model(st, t, dty))
+        if "indirect" not in f and cond is None and dty == "bool" and f.get("name") == "is_empty" and len(t["args"]) == 1 and "slice" in ((f.get("resolved") or f).get("path", "") or ""):
+            pl_ = t["args"][0].get("move") or t["args"][0].get("copy")
+            if pl_ is not None and not pl_["p"]:
+                kl, kp = self.norm(st, pl_["l"], ("*", "len"))
+                cond = ({(kl, tuple(kp)): (0, 0)}, {(kl, tuple(kp)): (1, Contracts.LEN[1])})
         if "indirect" not in f and cond is None and dty == "bool" and f.get("name") == "contains" and len(t["args"]) == 2:
             cond = self.range_contains_cond(st, t)
         ndl, ndp = self.norm(st, dl, dp)
